@@ -182,6 +182,36 @@ def kw_apart(R, f, cfg, calls, k, prefix):
             recv_, attr_ = q.attr_call(c_)
             if attr_ in ("append", "add") and isinstance(recv_, ast.Name) and tests and c_.args and q.src(c_.args[0]) == q.src(lp.target):
                 extras.add(recv_.id)
+    # which keywords are surplus is decided against ALL the parameter names (positional and keyword-only, unsliced) and against the
+    # positional names already given - a slice of the positional names alone.  (A slice of the combined list by len(args) runs into
+    # the keyword-only names when surplus positionals go to *varargs: a spelled-out keyword-only argument is then filed as surplus.)
+    ps_ = q.param_names(f.node)
+    pn_, kw_ = ps_[2], ps_[3]
+    a_ = ps_[0]
+
+    def resolve(e, depth=0):
+        if isinstance(e, ast.Name) and depth < 3:
+            vals = [v for k_, v in common.assigned_values(f.node, e.id) if k_ == "expr"]
+            if len(vals) == 1:
+                return resolve(vals[0], depth + 1)
+        return e
+    for st in q.scope_nodes(f.node):
+        if isinstance(st, ast.Assign) and len(st.targets) == 1 and isinstance(st.targets[0], ast.Name) and st.targets[0].id in extras:
+            for cmp_ in [x for x in ast.walk(st.value) if isinstance(x, ast.Compare)]:
+                for op_, comp_ in zip(cmp_.ops, cmp_.comparators):
+                    tgt = q.src(resolve(comp_)).replace(" ", "")
+                    if isinstance(op_, ast.NotIn):
+                        okn = tgt in ("%s+%s" % (pn_, kw_), "%s+%s" % (kw_, pn_)) or tgt.startswith(("set(%s+%s" % (pn_, kw_), "frozenset(%s+%s" % (pn_, kw_), "tuple(%s+%s" % (pn_, kw_)))
+                        R.check(okn, prefix + ".KW-APART", "%s:all-names:%s" % (f.qualname, q.src(comp_)), R.site(f, cmp_),
+                                "`not in %s` tests against all parameter names (%s + %s)" % (q.src(comp_), pn_, kw_),
+                                "surplus keywords are recognised by `not in %s`, which is `%s`, not all of %s + %s: when positional arguments overflow into *varargs a "
+                                "keyword-only argument that is spelled out is filed as a **kwargs extra - f(1, 2) and f(1, 2, flag=<its default>) get different keys"
+                                % (q.src(comp_), q.src(resolve(comp_))[:50], pn_, kw_))
+                    elif isinstance(op_, ast.In):
+                        okg = tgt in ("%s[:len(%s)]" % (pn_, a_),)
+                        R.check(okg, prefix + ".KW-APART", "%s:given:%s" % (f.qualname, q.src(comp_)), R.site(f, cmp_),
+                                "`in %s` tests against the positional names already given (%s[:len(%s)])" % (q.src(comp_), pn_, a_),
+                                "`in %s` is `%s`, not the positional names already given" % (q.src(comp_), q.src(resolve(comp_))[:50]))
     # the surplus keywords enter the key in an order that does not depend on how the caller wrote them: E is sorted
     for e_name in sorted(extras):
         defs = [st for st in q.scope_nodes(f.node) if isinstance(st, ast.Assign) and len(st.targets) == 1 and isinstance(st.targets[0], ast.Name) and st.targets[0].id == e_name]
@@ -287,7 +317,17 @@ def argcover_rule(R, prefix, only=None):
             R.need(len(call.args) == 5, "idiom: %s not called with 5 positional arguments in %s" % (q.call_name(call), f.qualname))
             A, K, NM, KW, D = call.args
         off = names_offset(f, NM)
-        R.need(off is not None, "idiom: cannot trace the argument-names expression `%s` in %s" % (q.src(NM), f.qualname))
+        # the positional arguments reach the key builder as the caller gave them (the bound instance or class included: calls through
+        # different classes of a hierarchy are different calls)
+        if not (isinstance(A, ast.Name) or (isinstance(A, ast.Tuple) and not A.elts)):
+            R.violation(prefix + ".ARGCOVER", "%s:%s:args-unchanged" % (f.qualname, q.src(call)[:30]), R.site(f, call),
+                        "the key is built from `%s`, not from all the positional arguments of the call: what is cut off (the class a classmethod is bound "
+                        "to, the instance) no longer distinguishes calls - two classes of a hierarchy calling with equal arguments share one key" % q.src(A))
+        if off is None:
+            R.violation(prefix + ".ARGCOVER", "%s:%s:names" % (f.qualname, q.src(NM)), R.site(f, call),
+                        "the argument names handed to the key builder (`%s`) are not the argspec's names from a fixed position on: names and positional "
+                        "arguments no longer line up for every kind of function (e.g. sliced by a run-time quantity for classmethods)" % q.src(NM))
+            continue
         k, kwonly, spec = off
         if not direct:
             kwv = KW
